@@ -3,22 +3,24 @@ namespace PlzVerif.Generated.C29
 def findOrder : List String := ["Directories", "mustBeDir", "Files", "Symlinks"]
 def findDot : Bool := true
 def findDotDot : Bool := true
-def openParams : Nat := 1
+def openDepthLimit : Option Nat := some 40
+def openParams : Nat := 2
 def openSelfCalls : Nat := 1
 def openAbsCheckFirst : Bool := true
 def openHasLoopOrCounter : Bool := false
 def readDirOrder : List String := ["Directories", "Files", "Symlinks"]
-def readDirReturnsEOF : Bool := false
-def dirIntFields : Nat := 0
-def readDirMutatesReceiver : Bool := false
+def readDirReturnsEOF : Bool := true
+def dirIntFields : Nat := 1
+def readDirMutatesReceiver : Bool := true
+def readDirHasOffset : Bool := true
 -- skelFindNode: p1, v0, v1 := strings.Cut(p1, string(filepath.Separator)) ; if p1 == "." { if v0 != "" { return r0.findNode(p0, v0) } v2, v3 := digest.NewFromMessage(p0) if v3 != nil { return nil, nil, nil, v3 } v4 := &pb.DirectoryNode{Name: ".", Digest: v2.ToProto()} return nil, v4, nil, nil } ; if p1 == ".." { return nil, nil, nil, os.ErrNotExist } ; for v5, v6 := range p0.Directories { if v6.Name == p1 { v7 := r0.directories[digest.NewFromProtoUnvalidated(v6.Digest)] if v0 == "" { return nil, v6, nil, nil } return r0.findNode(v7, v0) } } ; if v1 { return nil, nil, nil, os.ErrNotExist } ; for v8, v9 := range p0.Files { if v9.Name == p1 { return v9, nil, nil, nil } } ; for v10, v11 := range p0.Symlinks { if v11.Name == p1 { return nil, nil, v11, nil } } ; return nil, nil, nil, os.ErrNotExist
 def skelFindNode : String := "e26aca13c73b607bb1d2d0c8"
--- skelOpenRec: v0, v1, v2, v3 := r0.findNode(r0.root, p0) ; if v3 != nil { return nil, v3 } ; if v2 != nil { if filepath.IsAbs(v2.Target) { return nil, fmt.Errorf("…", p0) } return r0.open(filepath.Join(filepath.Dir(p0), v2.Target)) } ; if v0 != nil { return r0.openFile(v0) } ; if v1 != nil { return r0.openDir(v1) } ; return nil, os.ErrNotExist
-def skelOpenRec : String := "1b04ba035af2d92941a68665"
--- skelReadDir: v0 := p0 ; if p0 <= 0 { v0 = len(r0.pb.Files) + len(r0.pb.Symlinks) + len(r0.pb.Files) } ; v1 := make([]iofs.DirEntry, 0, v0) ; for v2, v3 := range r0.pb.Directories { if p0 > 0 && len(v1) == p0 { return v1, nil } v4 := r0.children[digest.NewFromProtoUnvalidated(v3.Digest)] v1 = append(v1, newDirInfo(v3.Name, v4)) } ; for v5, v6 := range r0.pb.Files { if p0 > 0 && len(v1) == p0 { return v1, nil } v1 = append(v1, newFileInfo(v6)) } ; for v7, v8 := range r0.pb.Symlinks { if p0 > 0 && len(v1) == p0 { return v1, nil } v1 = append(v1, newSymlinkInfo(v8)) } ; return v1, nil
-def skelReadDir : String := "b9113771cd7e2a5193fe7dff"
--- skelOpen: return r0.open(filepath.Join(r0.workingDir, p0))
-def skelOpen : String := "1043b3fe45076432aa39dbd3"
+-- skelOpenRec: if p1 > maxSymlinkDepth { return nil, fmt.Errorf("…", p0) } ; v0, v1, v2, v3 := r0.findNode(r0.root, p0) ; if v3 != nil { return nil, v3 } ; if v2 != nil { if filepath.IsAbs(v2.Target) { return nil, fmt.Errorf("…", p0) } return r0.open(filepath.Join(filepath.Dir(p0), v2.Target), p1+1) } ; if v0 != nil { return r0.openFile(v0) } ; if v1 != nil { return r0.openDir(v1) } ; return nil, os.ErrNotExist
+def skelOpenRec : String := "5f36039e3c392274b3c952e0"
+-- skelReadDir: if r0.entries == nil { r0.entries = make([]iofs.DirEntry, 0, len(r0.pb.Directories)+len(r0.pb.Files)+len(r0.pb.Symlinks)) for v0, v1 := range r0.pb.Directories { v2 := r0.children[digest.NewFromProtoUnvalidated(v1.Digest)] r0.entries = append(r0.entries, newDirInfo(v1.Name, v2)) } for v3, v4 := range r0.pb.Files { r0.entries = append(r0.entries, newFileInfo(v4)) } for v5, v6 := range r0.pb.Symlinks { r0.entries = append(r0.entries, newSymlinkInfo(v6)) } } ; v7 := r0.entries[r0.offset:] ; if p0 <= 0 { r0.offset = len(r0.entries) return v7, nil } ; if len(v7) == 0 { return nil, io.EOF } ; if p0 > len(v7) { p0 = len(v7) } ; r0.offset += p0 ; return v7[:p0:p0], nil
+def skelReadDir : String := "40205a89e06838bfeeb3aabf"
+-- skelOpen: return r0.open(filepath.Join(r0.workingDir, p0), 0)
+def skelOpen : String := "39fa4d196c4588e2c909fc80"
 -- skelFindNodeAPI: return r0.findNode(r0.root, filepath.Join(r0.workingDir, p0))
 def skelFindNodeAPI : String := "42632bc903bbe154e91c7cc1"
 -- skelStat: v0, v1, v2, v3 := r0.FindNode(p0) ; if v3 != nil { return nil, v3 } ; if v0 != nil { return newFileInfo(v0), nil } ; if v1 != nil { v4 := r0.directories[digest.NewFromProtoUnvalidated(v1.Digest)] return newDirInfo(v1.Name, v4), nil } ; if v2 != nil { return newSymlinkInfo(v2), nil } ; return nil, os.ErrNotExist
